@@ -12,10 +12,12 @@ def cmd(args, conn=1):
     return ' '.join([tok_b('CMD'), 'i%d' % conn, 'i0', 'i5', 'i%d' % len(args)] + ['i3 ' + tok_b(a) for a in args])
 prop = sys.argv[1]
 cmds = json.loads(sys.argv[2])
-ops = [tok_b('CONN') + ' i1']
+conns = sorted({c[0] for c in cmds if isinstance(c, list) and c and isinstance(c[0], int)} or {1})
+ops = [tok_b('CONN') + ' i%d' % k for k in conns]
 for c in cmds:
     if isinstance(c, dict) and 'sleep' in c: ops.append(tok_b('SLEEP') + ' i%d' % c['sleep'])
     elif isinstance(c, dict) and 'raw' in c: ops.append(c['raw'])
+    elif isinstance(c[0], int): ops.append(cmd(c[1:], c[0]))
     else: ops.append(cmd(c))
 case = vlib.fmt_case('w', ops)
 rc, out = vlib.sh([vlib.harness_bin(), 'run', prop], inp=case)
